@@ -210,6 +210,17 @@ def run(chk, repo, tier):
                     if a is not None and is_app(a, 'call:plane._plane_slice'):
                         arg = dict((k.items[0].value, k.items[1]) for k in a[2]).get('mask')
                         good = arg == val or arg == nf.attr(obj, '_mask') or arg == nf.attr(obj, 'mask')
+                    elif e.data.get('value') is not None:
+                        # the helper evaluated in place (moved, renamed, turned into a method): the refreshed cache is computed
+                        # from the mask that was stored when the value, or a condition it was selected under, reads that mask
+                        mine = nf.value_atoms(val) | {nf.attr(obj, '_mask').single_atom(), nf.attr(obj, 'mask').single_atom()}
+                        mine = {x for x in mine if x[0] in ('sym', 'attr', 'app', 'idx', 'fresh')}
+                        reads = nf.value_atoms(e.data['value']) | {x for c, _, _ in p.conds for x in nf.value_atoms(c)}
+                        good = True if (mine & reads) else None
+                if good is None:
+                    ok = None if ok else ok
+                    det = f'{fmt(obj)[:40]}._slice is refreshed with {fmt(fresh[-1].data["value"])[:60]}; its dependence on the mask is not visible'
+                    continue
                 if not good:
                     ok = False
                     det = (f'{fmt(obj)[:40]}._mask is stored and the path ends with ._slice = '
